@@ -90,7 +90,7 @@ CLAIMED = {
             "DESIGN.md §3 C03"),
     "C16": ("exploration",
             "Real ReplicaLeader + real ReplicaFollower.Run + real Channels (memory and disk over simfs) joined by a simulated RPC stream whose messages the scheduler delivers one at a time or loses; seeded pairs of leader/follower cache states (fresh, prefix, equal, ahead, other id, already collected), transfer chunking through the flow-control window, stream breaks at scheduler-chosen messages, leader growth and virtual time. After faults stop the follower must hold the leader's id and catch up within a bound (or be offered leadership when ahead, cache untouched); everything its cache then serves is read back byte by byte against keyed history functions.",
-            "Trusted: simgrpc stream model, simfs/simsync, keyed byte functions. Dial/credential/interceptor behaviour of gRPC is not simulated; leader id switch and leader-side collection during a transfer are not exercised.",
+            "Trusted: simgrpc stream model, simfs/simsync, keyed byte functions. Dial/credential/interceptor behaviour of gRPC is not simulated; leader-side size-triggered collection during a transfer is not exercised (a leader full resync and a leader id switch during a transfer are).",
             "deterministic simulation of the leader/follower RPC stream + byte-exact read-back oracle",
             "DESIGN.md §3 C16"),
 }
